@@ -514,8 +514,9 @@ class BindChildVars(LibModel):
     arguments are executed; the tail is arbitrary through the contract)."""
     qual = 'symbolic:Variable._bind_child_vars_'
     cls = 'Variable'
-    props = ('C11', 'C07')
+    props = ('C11', 'C07', 'C19')
     modes = ('sound',)
+    track_abandon = True
     trusted = ("interface contract I for the arguments' _evaluate__: a row extends the sources it was given",)
 
     def modenv(self):
@@ -544,6 +545,7 @@ class BindChildVars(LibModel):
                 st.ghost['names'] = [f'f{i + 1}' for i in range(n)]
                 st.ghost['vars'] = vars_
                 st.ghost['producer'] = {}
+                st.ghost['eval_parent0'] = st.fields['eval_parent']
                 st.path.append(f"arguments={n},already-bound={nb}")
                 sts.append(st)
         return sts
@@ -575,6 +577,10 @@ class BindChildVars(LibModel):
     def node__evaluate__(self, eng, st, recv, args, kwargs, node):
         if len(args) != 1 or kwargs or not isinstance(args[0], D):
             raise OutOfSubset("an argument evaluated with something else than one dict", node)
+        # C19 (constructor argument = value position): while an argument is evaluated here, what it is an operand of is this
+        # variable - not the logical operator the same expression may also stand under as a condition
+        eng.oblige(st, "C19/bind-args/an-argument-is-evaluated-as-an-operand-of-this-variable",
+                   z3.Select(st.fields['eval_parent'], recv.t) == self.n, line=node.lineno)
         return [(st, Obj('argstream', {'node': recv.t, 'sigma': args[0].ref}))]
 
     def node__bind_child_vars_(self, eng, st, recv, args, kwargs, node):
@@ -588,7 +594,9 @@ class BindChildVars(LibModel):
 
     def abstract_loop(self, eng, st, s, it, ordinal):
         if isinstance(it, Obj) and it.kind == 'argstream':
-            outs = [Outcome(st)]
+            raised = st.clone()
+            raised.path.append('the-argument-raises')
+            outs = [Outcome(st), Outcome(raised, RAISE, C(Ref('exc', 'Exception')))]
             b = st.clone()
             row = eng.new_dict(b, Z.ZMap.fresh('value'))
             b.assume(b.dicts[row.ref].extends(b.dicts[it.data['sigma']]))
@@ -644,7 +652,13 @@ class BindChildVars(LibModel):
             if isinstance(v, D) and v.ref in b.ghost['producer']:
                 eng.oblige(b, f"C11/bind-args@yield#{ordinal}/the-bindings-handed-down-contain-the-row-chosen-for-{k.v}", nb.extends(b.dicts[v.ref]), line=node.lineno)
         self._post(eng, b, items, f"yield#{ordinal}", node.lineno, deeper=deeper)
-        return [Outcome(st), Outcome(b)]
+        # (the recursive call leaves the evaluation parents as it found them - its own clause below; the consumer may abandon
+        # the evaluation while a deeper row is out, and the deeper call may raise)
+        gone = b.clone()
+        gone.path.append(f"abandon@y{ordinal}")
+        failed = st.clone()
+        failed.path.append('the-recursive-call-raises')
+        return [Outcome(st), Outcome(b), Outcome(gone, GENEXIT, ordinal), Outcome(failed, RAISE, C(Ref('exc', 'Exception')))]
 
     def on_yield(self, eng, st, v, ordinal, node):
         if not (isinstance(v, Obj) and v.kind == 'pymap'):
@@ -653,8 +667,9 @@ class BindChildVars(LibModel):
         return [st]
 
     def on_exit(self, eng, o):
-        if o.sig == RAISE:
-            eng.oblige(o.st, "C11/bind-args/no-exception", z3.BoolVal(False))
+        how = {NEXT: 'exhausted', RETURN: 'exhausted', RAISE: 'an-exception', GENEXIT: 'abandoned'}.get(o.sig, str(o.sig))
+        eng.oblige(o.st, f"C19/bind-args/evaluation-parents-are-left-as-they-were/{how}",
+                   o.st.fields['eval_parent'] == o.st.ghost['eval_parent0'])
 
     def signature(self, ob, model):
         return {}
